@@ -53,6 +53,20 @@ def _scores(tier):
     out.append(("double_sharps_and_double_flats", lambda: G.build_part("P1", 4, notes=[("d0", 0, 4, "F", 2, 4, 1, 1), ("d1", 4, 4, "B", -2, 3, 1, 1), ("d2", 8, 4, "C", 2, 5, 1, 1), ("d3", 12, 4, "G", 1, 4, 1, 1),
                                                                                       ("d4", 16, 8, "F", 2, 3, 1, 1), ("d5", 24, 8, "E", -2, 4, 1, 1)],
                                                                      graces=[("dg", 16, "A", 2, 4, 1, 1, "d4")], key=(5, "minor"), measures=[(0, 16), (16, 32)])))
+    def with_keys(p, *changes):
+        for t, fifths, mode in changes:
+            p.add(sc.KeySignature(fifths, mode), t)
+        return p
+    out.append(("key_change_at_the_second_and_third_bar", lambda: with_keys(G.build_part("P1", 4, notes=[("n0", 0, 16, "C", None, 4, 1, 1), ("n1", 16, 16, "D", None, 4, 1, 1), ("n2", 32, 16, "E", None, 4, 1, 1)],
+                                                                                          key=(0, "major"), measures=[(0, 16), (16, 32), (32, 48)]), (16, 3, "major"), (32, -2, "minor"))))
+    out.append(("beat_type_changes_six_eight_to_four_four", lambda: G.build_part("P1", 4, ts=((0, 6, 8), (24, 4, 4)), notes=[("n0", 0, 12, "C", None, 4, 1, 1), ("n0b", 12, 12, "C", None, 4, 1, 1), ("n1", 24, 16, "D", None, 4, 1, 1),
+                                                                                                                             ("n2", 40, 16, "E", None, 4, 1, 1)], key=(0, "major"), measures=[(0, 12), (12, 24), (24, 40), (40, 56)])))
+    out.append(("beat_type_changes_two_two_to_three_eight_with_a_key_change", lambda: with_keys(G.build_part("P1", 4, ts=((0, 2, 2), (32, 3, 8)), notes=[("n0", 0, 16, "C", None, 4, 1, 1), ("n0b", 16, 16, "C", None, 4, 1, 1),
+                                                                                                                                                         ("n1", 32, 6, "D", None, 4, 1, 1), ("n2", 38, 6, "E", None, 4, 1, 1)],
+                                                                                                              key=(0, "major"), measures=[(0, 16), (16, 32), (32, 38), (38, 44)]), (32, 4, "major"))))
+    out.append(("pickup_in_six_eight_then_four_four_and_a_new_key", lambda: with_keys(G.build_part("P1", 4, ts=((0, 6, 8), (14, 4, 4)), notes=[("u", 0, 2, "C", None, 4, 1, 1), ("n0", 2, 12, "C", None, 4, 1, 1), ("n1", 14, 16, "D", None, 4, 1, 1),
+                                                                                                                                               ("n2", 30, 16, "E", None, 4, 1, 1)], key=(0, "major"), measures=[(0, 2), (2, 14), (14, 30), (30, 46)]),
+                                                                                      (14, 4, "major"))))
     if tier == "thorough":
         out.append(("grace", lambda: G.build_part("P1", 4, notes=[("n0", 0, 8, "C", None, 4, 1, 1), ("n1", 8, 8, "D", None, 4, 1, 1)], graces=[("g0", 8, "E", None, 4, 1, 1, "n1")], measures=[(0, 16)])))
     return out
@@ -147,8 +161,11 @@ def bounded(b):
                     b.case("match/measures_at_the_same_positions", m1 == m2, case, "measure starts (beats from the start) %r, expected %r" % (m2, m1))
                     ts1 = sorted((round(float(part.beat_map(t.start.t) - part.beat_map(part.first_point.t)), 4), t.beats, t.beat_type) for t in part.iter_all(sc.TimeSignature))
                     ts2 = sorted((round(float(spart2.beat_map(t.start.t) - spart2.beat_map(spart2.first_point.t)), 4), t.beats, t.beat_type) for t in spart2.iter_all(sc.TimeSignature))
-                    ks1 = sorted((k.fifths, k.mode) for k in part.iter_all(sc.KeySignature))
-                    ks2 = sorted((k.fifths, k.mode) for k in spart2.iter_all(sc.KeySignature))
+                    qpos = lambda p, o: round(float(p.quarter_map(o.start.t) - p.quarter_map(p.first_point.t)), 4)
+                    ks1 = sorted((qpos(part, k), k.fifths, k.mode) for k in part.iter_all(sc.KeySignature))
+                    ks2 = sorted((qpos(spart2, k), k.fifths, k.mode) for k in spart2.iter_all(sc.KeySignature))
+                    ts1 = [x + (qpos(part, t),) for x, t in zip(ts1, sorted(part.iter_all(sc.TimeSignature), key=lambda t: t.start.t))]
+                    ts2 = [x + (qpos(spart2, t),) for x, t in zip(ts2, sorted(spart2.iter_all(sc.TimeSignature), key=lambda t: t.start.t))]
                     b.case("match/time_and_key_signatures_at_the_bar_where_they_were_written", ts1 == ts2 and ks1 == ks2, case, "signatures %r %r, expected %r %r" % (ts2, ks2, ts1, ks1))
                     # second generation under ANOTHER clock: the loaded performance carries ticks of the first file; saving it with a different
                     # ppq/mpq must still write the same seconds
